@@ -66,6 +66,7 @@ def shooting_iota(cfg):
     def F(iN):
         sol = solve_ivp(rhs, [0, 2 * np.pi / nfp], [s0], args=(iN,), method='DOP853', rtol=1e-11, atol=1e-13)
         return sol.y[0, -1] - s0
+    F.G0 = G0
     return F, N
 
 
@@ -78,6 +79,9 @@ def shooting_check(cfg, q, out):
     n = 1
     if N != q.helicity:
         out.append(dict(key='shooting:helicity', what='helicity %r differs from sG*spsi*(winding number of the normal computed from the coefficients) = %d' % (q.helicity, N), cfg=jsonable(cfg)))
+    n += 1
+    if abs(q.G0 - F.G0) > 1e-9 * abs(F.G0):
+        out.append(dict(key='shooting:G0', what='G0 = %.12g but sG * B0 * (axis length) / (2 pi) from the coefficients is %.12g: the sigma equation was solved with the wrong G0' % (q.G0, F.G0), cfg=jsonable(cfg)))
     if not tail < 1e-9:
         return n
     want_iN = q.iota + N * cfg['nfp']                 # the iotaN the shooting solution must have if the returned iota is right
@@ -168,10 +172,8 @@ def main():
     nn = a.n if a.mode == 'check' else 10 ** 6
     tried = 0
     # distilled regression inputs first: the corpus (incl. quasi-helical with spsi = -1) and two inputs on which Newton stalls
-    for c_, q_ in corpus_objects(histories=False):
-        c_ = dict(c_); c_['nphi'] = 41
-        q_, m_ = build(c_)
-        v, n = predict(c_, rng, q_, m_)
+    for c_, q_ in corpus_objects(histories=True):        # fresh objects and objects reached through histories (same inputs, must be the same objects)
+        v, n = predict(c_, rng, q_, [])
         res['predictions_checked'] += n; res['violations'] += v; res['configs'] += 1
         dist['corpus'] = dist.get('corpus', 0) + 1
     qh = dict(rc=[1.0, 0.17, 0.01804, 0.001409], zs=[0.0, 0.1581, 0.01820, 0.001548], nfp=4, etabar=1.569, nphi=31)
